@@ -17,6 +17,7 @@ type propDef struct {
 }
 
 var props = map[string]*propDef{}
+var verbose *bool
 
 func register(id string, run func(c *Ctx), explanation string) {
 	props[id] = &propDef{id, run, explanation}
@@ -29,6 +30,7 @@ func main() {
 	verif := flag.String("verif", "/verif", "verif directory (known findings, evidence, reports)")
 	replay := flag.String("replay", "", "report to replay: re-runs the property and tells which keys still reproduce")
 	noEvidence := flag.Bool("no-evidence", false, "do not write the evidence file (used for teeth runs on scratch copies)")
+	verbose = flag.Bool("v", false, "list every rule instance")
 	keysOnly := flag.Bool("keys", false, "print failing keys one per line (machine readable), no evidence")
 	flag.Parse()
 	if t := os.Getenv("VERIF_TIER"); t != "" && *tier == "" {
